@@ -393,6 +393,28 @@ func (g *guardEngine) eventsOf(f *ssa.Function) []guardEvent {
 					}
 				} else if b, ok := x.Type().Underlying().(*types.Basic); ok && b.Kind() == types.Bool {
 					res = x
+				} else if refs := x.Referrers(); refs != nil {
+					// v := m[k]; if v != nil — presence test on a map of pointers / interfaces (the inlined form of a
+					// `return m[k] != nil` helper)
+					for _, r := range *refs {
+						bo, ok := r.(*ssa.BinOp)
+						if !ok || (bo.Op != token.NEQ && bo.Op != token.EQL) {
+							continue
+						}
+						other := bo.X
+						if other == ssa.Value(x) {
+							other = bo.Y
+						}
+						if k, ok := other.(*ssa.Const); !ok || !k.IsNil() {
+							continue
+						}
+						if fnd, nf, ok := branchTargets(bo); ok {
+							if bo.Op == token.EQL {
+								fnd, nf = nf, fnd
+							}
+							evs = append(evs, guardEvent{gl: gl, elems: canonAll([]ssa.Value{x.Index}), instr: x, found: fnd, notFound: nf, via: "map lookup != nil"})
+						}
+					}
 				}
 				if res == nil {
 					continue
